@@ -8,6 +8,7 @@ import (
 	"math"
 	"math/rand/v2"
 	"runtime/debug"
+	"sync"
 	"testing"
 
 	"github.com/platinummonkey/go-concurrency-limits/core"
@@ -73,6 +74,30 @@ func class(s limgen.Sample) string {
 	return c
 }
 
+// sideBySide: several Vegas limits in one process, each sampled by its own goroutine, every sample a probe (initial =
+// max = 1, probe multiplier 1).  Limits are independent objects: whatever they draw their probe jitter from, no sample
+// panics.  (A panic kills this process; the driver reports it as a library panic under this property.)
+func sideBySide(idx int64, r *rand.Rand) {
+	n := 4 + r.IntN(9)
+	var wg sync.WaitGroup
+	for g := 0; g < n; g++ {
+		wg.Add(1)
+		l := limit.NewVegasLimitWithRegistry("c04", 1, nil, 1, 1, nil, nil, nil, nil, nil, 1, nil, nil)
+		go func() {
+			defer wg.Done()
+			for i := 0; i < 4000; i++ {
+				l.OnSample(0, int64(1000+i%7), 1, i%11 == 0)
+				if e := l.EstimatedLimit(); e != 1 {
+					rt.Violation("C04/vegas/bare/estimate-out-of-bounds/side-by-side", idx, rt.J{"estimate": e})
+					return
+				}
+			}
+		}()
+	}
+	wg.Wait()
+	rt.Count("side_by_side_vegas_probe_samples", int64(n*4000))
+}
+
 func TestCheck(t *testing.T) {
 	if limgen.LargeTables() {
 		rt.Count("shards_started_with_enlarged_lookup_tables", 1)
@@ -80,6 +105,10 @@ func TestCheck(t *testing.T) {
 	rt.Cases(20000, 3000000, func(idx int64) {
 		r := rt.CaseRand(4, idx)
 		rt.Case()
+		if idx%400 == 77 {
+			sideBySide(idx, r)
+			return
+		}
 		kind := limgen.Kinds[r.IntN(4)]
 		spec := limgen.Gen(r, kind, limgen.Opts{NoProbe: true})
 		spec.Debug = r.IntN(5) == 0 // a debug-enabled logger must not change behaviour
